@@ -75,6 +75,10 @@ def explore_subtree(run_and_check, root_prefix, bound, res, max_exec=None):
         res.choice_points += len(ch.points)
         res.transitions += len(ch.choices)
         res.max_depth = max(res.max_depth, len(ch.choices))
+        if res.violation_count >= 5 and len(res.violations) >= 1 and n >= 5:
+            # enough counterexamples below this subtree root; stop spending time on it (the run is failing anyway)
+            res.count("subtrees_abandoned_after_violations")
+            break
         if max_exec is not None and n >= max_exec:
             if stack or children(ch, bound):
                 res.cap(f"execution cap {max_exec} per subtree")
@@ -84,6 +88,12 @@ def explore_subtree(run_and_check, root_prefix, bound, res, max_exec=None):
 
 
 _JOB = None
+
+
+def total_explore_after_root_violation():
+    import os
+
+    return bool(os.environ.get("VERIF_EXPLORE_AFTER_VIOLATION"))
 
 
 def _subtree_job(item):
@@ -101,7 +111,13 @@ def explore_parallel(fn, configs, bound, seed=0, max_exec_per_subtree=None, proc
     jobs = []
     for cfg in configs:
         ch = Chooser(())
+        before = total.violation_count
         fn(cfg, ch, total)
+        if total.violation_count > before and not total_explore_after_root_violation():
+            # the default schedule already violates: that is the counterexample with the fewest deviations
+            total.traces += 1
+            total.count("configurations_violating_on_default_schedule")
+            continue
         total.traces += 1
         total.choice_points += len(ch.points)
         total.transitions += len(ch.choices)
